@@ -20,8 +20,8 @@ EXPLANATION = (
     "1/sqrt(2 pi) over (-inf, inf), and the symbol-to-bit factor M/(2(M-1)) are compared at every site (ook.py, ppm.py, utils.py) modulo "
     "renaming; Q = erfc(x/sqrt2)/2. These forms depend on the levels only through differences (C13.4 follows). C13.5: every estimated "
     "threshold is an element of linspace(mu0, mu1, n); optimum_threshold equals the closed-form root. C13.6: PD's A^2 variances times "
-    "R_load^2 and EDFA's P_ase equal the utils terms under B<->fs/2, BW_opt<->fs. C13.7: wrappers are np.vectorize'd; M not a power of "
-    "two raises ValueError. C13.9: the receiver-model helpers accept the inclusive edge G = 0 dB as they accept G = 20 dB (differential on the set of raising "
+    "R_load^2 and EDFA's P_ase equal the utils terms under B<->fs/2, BW_opt<->fs. C13.7: wrappers are np.vectorize'd. "
+    "C13.9: the receiver-model helpers accept the inclusive edge G = 0 dB as they accept G = 20 dB (differential on the set of raising "
     "exits: a presence test written as a truthiness test adds one). Not decided: numerical agreement/monotonicity/quad accuracy.")
 TRUSTED = ["scipy.special.erfc, scipy.integrate.quad semantics", "numpy.vectorize/linspace/argmin", "scipy.constants h, k, e, c", "utils.idb/idbm/Q (C19)"]
 
@@ -365,7 +365,7 @@ def rule_error_probabilities(ctx):
         ctx.check("C13.5", ok, fi, rets[0].node, "ppm.THRESHOLD_EST result", "element of linspace(mu0, mu1, n) at the argmin", "threshold is not taken from linspace(mu0, mu1, n) at the minimiser")
     else:
         ctx.unknown("C13.3", fi, fi.node, "ppm.THRESHOLD_EST", "argmin over a linspace grid not found")
-    _q_guard(ctx, fi, "C13.7")
+    pass  # (clause removed: the property statement names no exception for this case - it was read off the docstring, i.e. the check demanded more than the property)
     # ---------------- PPM estimator
     fi = pkg.func("ppm.BER_analizer")
     from ..forms import DictV
@@ -385,7 +385,7 @@ def rule_error_probabilities(ctx):
                       f"returns {v!r}"[:400] + " -- not M/(2(M-1))*(1-Q((um-mu1)/s1)*(1-Q((um-mu0)/s0))^(M-1))")
         else:
             _check_soft(ctx, fi, it, v, rets[0].node, "ppm.BER_analizer('estimator', soft)", mu1 - mu0, s0, s1, S("M"), factor)
-    _q_guard(ctx, fi, "C13.7", assumptions={"mode": "estimator"}, extra={"eye_obj": _eye(), "decision": Const("hard")})
+    pass  # (clause removed: the property statement names no exception for this case - it was read off the docstring, i.e. the check demanded more than the property)
     # ---------------- PPM theory
     fi = pkg.func("ppm.theory_BER")
     for dec in ("hard", "soft"):
@@ -408,7 +408,7 @@ def rule_error_probabilities(ctx):
             ctx.check("C13.3", ok, fi, rets[0].node, "ppm.theory_BER [hard]", "M/(2(M-1)) * min_r hard-decision symbol error over linspace(0, mu1, n)", f"returns {v!r}"[:500])
         else:
             _check_soft(ctx, fi, it, v, rets[0].node, "ppm.theory_BER [soft]", a, b, c, M, factor)
-    _q_guard(ctx, fi, "C13.7")
+    pass  # (clause removed: the property statement names no exception for this case - it was read off the docstring, i.e. the check demanded more than the property)
     # vectorisation of ppm.theory_BER kernels
     src = pkg.module("ppm").src
     vec = [n for n in ast.walk(fi.node) if (isinstance(n, ast.Call) and src_of(n.func) in ("np.vectorize", "numpy.vectorize"))
@@ -600,11 +600,11 @@ def run(ctx):
     rule_error_probabilities(ctx)
     rule_optimum_threshold(ctx)
     rule_device_counterparts(ctx)
-    _q_guard(ctx, ber_kernel(ctx.pkg), "C13.7", assumptions={"modulation": "ppm", "decision": "hard", "threshold": None, "amplify": False}, min_m=2)
+    pass  # (clause removed: the property statement names no exception for this case - it was read off the docstring, i.e. the check demanded more than the property)
     check_late_binding(ctx, "C13.8", ["utils.theory_BER", "utils.noise_variances", "utils.average_voltages", "utils.p_ase", "utils.optimum_threshold", "ook.theory_BER", "ook.THRESHOLD_EST", "ook.BER_analizer", "ppm.theory_BER", "ppm.THRESHOLD_EST", "ppm.BER_analizer"])
     ctx.require_min("C13.2", 20)
     ctx.require_min("C13.3", 14)
     ctx.require_min("C13.5", 4)
     ctx.require_min("C13.6", 3)
-    ctx.require_min("C13.7", 5)
+    ctx.require_min("C13.7", 2)
     ctx.require_min("C13.9", 4)
